@@ -16,6 +16,7 @@ delay changes: whatever `register_local_inputs` hands to the remote endpoints is
 queue content, frame after frame.
 -/
 import GgrsModel.Model.Inventory
+import GgrsModel.Proofs.Pair
 import GgrsModel.Proofs.Queue
 import GgrsModel.Proofs.DelayStep
 import GgrsModel.Proofs.GlueDrop
@@ -330,6 +331,41 @@ satisfies the premises; so every `DStar` run from it is covered (`YStar_of_DStar
 example (x : P2P × TLState) (h : HInv x) (hdf : x.1.disconnectFrame = NULL_FRAME) : YInv x := by
   obtain ⟨⟨gh, hs, hg⟩, hn⟩ := h
   exact ⟨⟨_, _, SessInvD_of_SessInv x.1 gh x.2 [] hs hdf, hg⟩, hn⟩
+
+end Ggrs
+
+namespace Ggrs
+
+/-- **C11 across two peers: run-time delay changes keep owner and remote in agreement.** The pair
+world of `Proofs/Pair.lean` has `set_input_delay` calls of either session's local players as steps,
+at any moments and with any values (`Half.setDelay`), next to local input submissions, calls, cell
+writes and arrivals (the next frame of a player of the other peer, read off the owner's queue —
+fill frames of a delay increase included). For every such run the receiver's stream of every player
+is a prefix of the owner's (`PPInv_run`), so after the rollback phase of the next call on either
+side owner and remote peer use IDENTICAL inputs for that player on every frame both have simulated
+and both hold: an increase repeats the last input for the frames it opens up and a decrease drops
+submissions on both sides alike, because both read the same stream (`C11_queue` is the ring side,
+`C11_delay_changes` the sending side of the same fact). -/
+theorem C11_agree_two_peers (x y : (P2P × TLState) × (P2P × TLState)) (h0 : PPInv x) (hrun : PStar x y)
+    (nowA nowB : Nat) (sA' sB' : P2P) (reqsA reqsB : List Request)
+    (hcA : y.1.1.advanceRollbackFrame nowA [] = .ok (sA', reqsA))
+    (hcB : y.2.1.advanceRollbackFrame nowB [] = .ok (sB', reqsB)) :
+    ∃ (r1A r1B : List Request),
+      (reqsA = r1A ∨ ∃ ins, reqsA = r1A ++ [.advance ins]) ∧ (reqsB = r1B ∨ ∃ ins, reqsB = r1B ++ [.advance ins]) ∧
+      ∀ p, ((p ∈ y.1.1.localPlayerHandles ∧ p ∉ y.2.1.localPlayerHandles) ∨
+            (p ∈ y.2.1.localPlayerHandles ∧ p ∉ y.1.1.localPlayerHandles)) →
+        p < y.1.1.sync.queues.length → p < y.2.1.sync.queues.length → ∀ f : Nat,
+        (f : Int) < y.1.1.sync.currentFrame → (f : Int) < y.2.1.sync.currentFrame →
+        (f : Int) ≤ (rget y.1.1.sync.queues p).lastAddedFrame → (f : Int) ≤ (rget y.2.1.sync.queues p).lastAddedFrame →
+        (((execReqs y.1.2 r1A).R f).getD p default).1 = (((execReqs y.2.2 r1B).R f).getD p default).1 :=
+  pair_agree x y h0 hrun nowA nowB sA' sB' reqsA reqsB hcA hcB
+
+/-- The pair world does contain delay changes: an accepted or refused `set_input_delay` call of a
+local player is a step. -/
+example (s s' : P2P) (t : TLState) (b : P2P × TLState) (now handle delay : Nat) (r : Except GgrsError Unit)
+    (h1 : handle ∈ s.localPlayerHandles) (h2 : handle < s.sync.queues.length)
+    (h3 : s.setInputDelay now handle delay = .ok (s', r)) : PStep ((s, t), b) ((s', t), b) :=
+  PStep.left _ _ _ (Half.setDelay s s' t b now handle delay r h1 h2 h3)
 
 end Ggrs
 
